@@ -118,6 +118,23 @@ class BundleInstance:
     def __repr__(self):
         return f"{self.__class__.__name__}(name={self.name} of={self.of})"
 
+    def __copy__(self) -> "BundleInstance":
+        """# Copy
+        Copies - as made by multiplication and by `flipped` - share no state with the original:
+        the references handed out, and the ports connected, are each instance's own."""
+        cp = BundleInstance(
+            name=self.name,
+            of=self.of,
+            port=self.port,
+            flipped=self.flipped,
+            role=self.role,
+            src=self.src,
+            dest=self.dest,
+            desc=self.desc,
+        )
+        cp.props = copy(self.props)
+        return cp
+
     def __rmul__(self, num: int) -> List["Self"]:
         """# Right multiplication. Creates `num` copies of ourselves."""
         if not isinstance(num, int):
